@@ -58,8 +58,9 @@ Definition dir_sync (d : dworld) (p : path) : dworld :=
   let kept := filter (fun x => negb (child_of (fst x) p) || match nget (names t) (fst x) with Some _ => true | None => false end)
                      (dents d) in
   let own := nset kept p EDir in
-  let kids := filter (fun x => child_of (fst x) p) (names t) in
-  {| dw := t; dents := fold_left (fun m x => nset m (fst x) (snd x)) kids own;
+  {| dw := t;
+     dents := fold_left (fun m q => match nget (names t) q with Some e => nset m q e | None => m end)
+                        (children t p) own;
      ddata := ddata d; dpend := dpend d; dbs := dbs d; dunspec := dunspec d |}.
 
 (* the proper prefixes of p: its ancestors *)
@@ -128,10 +129,11 @@ Definition dstep (d : dworld) (o : op) : dworld * out :=
           | None => d1
           end
       | Spit p data coin =>
-          match nget (names t1) p with
-          | Some (EFile i) => let d' := add_pend d1 i 0 data in
-                              if coin then data_sync d' i else d'
-          | _ => d1
+          (* fs::write issues no write (and draws no coin) for empty contents *)
+          match data, nget (names t1) p with
+          | _ :: _, Some (EFile i) => let d' := add_pend d1 i 0 data in
+                                      if coin then data_sync d' i else d'
+          | _, _ => d1
           end
       | SetLen slot _ coin =>
           match sget (shs t) slot with
@@ -194,3 +196,23 @@ Fixpoint no_dangling_crash (d : dworld) (l : list op) : bool :=
 
 Definition hdclasses_enc (nhosts bs : nat) (l : list (nat * op)) : list N :=
   flat_map (fun h => map klass_id (dclasses bs (host_ops h l))) (seq 0 nhosts).
+
+(* ---- the alphabet and the side conditions of the C07 theorem ------------------------------- *)
+(* everything except the recursive conveniences and remove_dir *)
+Definition c07_op (o : op) : bool :=
+  match o with MkdirAll _ | RmdirAll _ | Rmdir _ => false | _ => true end.
+(* KindSwap (C07 only): a directory is created where a file was unlinked since
+   the last crash *)
+Definition kind_swap (gone : list path) (o : op) : bool :=
+  match o with Mkdir p => mem_path p gone | _ => false end.
+(* no known class, no KindSwap, and every crash finds all durable entries reachable *)
+Fixpoint dsafe_from (d : dworld) (gone : list path) (l : list op) : bool :=
+  match l with
+  | [] => true
+  | o :: l' =>
+      (match op_classes (dw d) gone o with [] => true | _ => false end)
+      && negb (kind_swap gone o)
+      && (match o with Crash _ => negb (dangling d) | _ => true end)
+      && dsafe_from (fst (dstep d o)) (gone_after (dw d) gone o) l'
+  end.
+Definition dsafe (bs : nat) (l : list op) : bool := dsafe_from (init_dworld bs) [] l.
